@@ -10,7 +10,8 @@ from .summaries import DecSort
 
 POOL = ['0', '1', '-1', '2', '0.5', '-0.5', '79228162514264337593543950335', '-79228162514264337593543950335', '1000', '0.0000000000000000000000000001', '3', '-2.5', '150',
         '7000000000000000000000000000.5', '5000000000000000000000000000.0', '2.9999999999999999999999999999', '10000000000000000000000000000', '0.3', '0.1', '1.10']
-NATIVE_OPS = {'Add': 'add', 'Subtract': 'sub', 'Multiply': 'mul', 'Divide': 'div', 'Modulo': 'rem', 'Negative': 'neg'}
+NATIVE_OPS = {'Add': 'add', 'Subtract': 'sub', 'Multiply': 'mul', 'Divide': 'div', 'Modulo': 'rem', 'Negative': 'neg', 'Abs': 'abs', 'Floor': 'floor', 'Ceil': 'ceil', 'Round': 'round',
+              'Truncate': 'trunc', 'Sign': 'signum', 'Ln': 'ln', 'Exp': 'exp', 'Sqrt': 'sqrt', 'Pow': 'powd'}
 
 
 def dec_value(payload):
@@ -57,7 +58,7 @@ class DecimalArm(EvalArm):
                 sx = ob.sexpr_concrete(combo)
                 stt, payload, us = runner.request('AST', 'decimal', sx, timeout=3.0)
                 if found is None: found = (sx, stt, payload, us)
-                if ob.differential and stt in ('OK', 'ERR'):
+                if ob.differential and getattr(ob, '_confirming', False) and stt in ('OK', 'ERR'):
                     # a witness must itself depart from the rust_decimal operations of the same meaning, computed natively on the same operands
                     refn = ob.native_reference(runner, combo)
                     if refn is None: continue
@@ -80,15 +81,22 @@ class DecimalArm(EvalArm):
         def rec(shape):
             if isinstance(shape, DecLeaf): return 'd' + next(it)
             if isinstance(shape, Leaf): return 'd' + str(shape.var)
-            if shape[0] not in NATIVE_OPS or (len(shape) == 2 and isinstance(shape[1], list)): raise KeyError(shape[0])
+            if (shape[0] not in NATIVE_OPS and shape[0] not in ('Lb', 'Log', 'Exp2', 'Root')) or (len(shape) == 2 and isinstance(shape[1], list)): raise KeyError(shape[0])
             args = []
             for c in shape[1:]:
                 a = rec(c)
                 if a is None: return None
                 args.append(a)
-            stt, payload, _ = runner.request('DEC', NATIVE_OPS[shape[0]], *args)
-            if stt != 'OK': return None          # panic / None: the operation is not defined on these operands
-            return payload
+            def dec(op, *xs):
+                if any(x is None for x in xs): return None
+                stt, payload, _ = runner.request('DEC', op, *xs)
+                return payload if stt == 'OK' else None          # panic / None: the operation is not defined on these operands
+            k = shape[0]
+            if k == 'Lb': return dec('div', dec('ln', args[0]), dec('ln', 'd2'))
+            if k == 'Log': return dec('div', dec('ln', args[0]), dec('ln', args[1]))
+            if k == 'Exp2': return dec('powd', 'd2', args[0])
+            if k == 'Root': return dec('powd', args[1], dec('div', 'd1', args[0]))
+            return dec(NATIVE_OPS[k], *args)
         try:
             r = rec(self.shape)
         except KeyError:
